@@ -114,6 +114,7 @@ func scanUnspecified(prog []tiref.Node, m *tiref.Machine, params []tiref.Value) 
 type Call struct {
 	Prog   string            `json:"prog"`
 	Params []tiref.ParamSpec `json:"params"`
+	Omit   int               `json:"omit,omitempty"` // trailing (zero, numeric) parameters the call leaves out
 }
 
 type ProgCase struct {
@@ -126,8 +127,18 @@ func genProgCase(t *rapid.T) ProgCase {
 	depth := pbt.Pick(4, 6)
 	for i := 0; i < n; i++ {
 		ps := tiref.GenParams(t, false)
+		// Omit: the caller passes fewer arguments than the string refers to; per terminfo(5) (tparm takes
+		// nine values, the rest being 0) a parameter that is not supplied is the number 0. Only p3.. are
+		// left out: what %i does to a missing p1/p2 is not asked here.
+		omit := 0
+		if len(ps) > 2 && rapid.IntRange(0, 3).Draw(t, "omit") == 0 {
+			omit = rapid.IntRange(1, len(ps)-2).Draw(t, "nomit")
+			for k := len(ps) - omit; k < len(ps); k++ {
+				ps[k] = tiref.ParamSpec{}
+			}
+		}
 		prog := tiref.GenProgram(t, ps, tiref.GenOpts{Depth: rapid.IntRange(0, depth).Draw(t, "depth")})
-		c.Calls = append(c.Calls, Call{Prog: tiref.String(prog), Params: ps})
+		c.Calls = append(c.Calls, Call{Prog: tiref.String(prog), Params: ps, Omit: omit})
 	}
 	return c
 }
@@ -161,6 +172,7 @@ func progProp(c ProgCase) error {
 		// passed as args... It must come back untouched (elements, and what lies
 		// behind the prefix), so that evaluating again gives the same output.
 		fresh := toArgs(call.Params)
+		fresh = fresh[:len(fresh)-call.Omit]
 		backing := make([]interface{}, len(fresh), len(fresh)+10)
 		copy(backing, fresh)
 		tail := backing[len(fresh) : len(fresh)+10]
